@@ -1042,6 +1042,9 @@ func pipeSim(r *simcore.Run) {
 	noAuthn := variant == 2 && prop != "C04" && s.Draw(5, "rule-without-authenticator") == 4
 	if noAuthn {
 		p.authn = nil
+		if len(p.handlers)+len(p.fins) == 0 {
+			p.fins = []handlerSpec{{id: "header", typ: "finalizer", alwaysOK: 1}}
+		}
 	}
 	hasHeaderFin := false
 	for _, f := range p.fins {
